@@ -83,6 +83,9 @@ func (c *vhConn) vhSender() *sender {
 	}
 	s.sndNxtList = pos
 	s.outstanding = wn
+	if fin && wn == k {
+		s.outstanding = wn - 1 // a sent FIN is not counted as an outstanding packet
+	}
 	if fin {
 		e.sndClosed = true
 	}
@@ -101,7 +104,15 @@ func vhInvS(s *sender) bool {
 	seenNext := s.writeNext == nil
 	nxtIsBoundary := s.sndNxt == s.sndUna
 	wnOK := s.writeNext != nil
+	before := 0 // segments sent and not yet acknowledged (those in front of writeNext)
+	passed := false
 	for seg := s.writeList.Front(); seg != nil; seg = seg.Next() {
+		if seg == s.writeNext {
+			passed = true
+		}
+		if !passed && seg.data.Size() > 0 { // sendData counts data segments only (a FIN is not counted)
+			before++
+		}
 		if seg == s.writeNext {
 			seenNext = true
 			wnOK = !s.sndNxt.LessThan(pos) // writeNext sits at or before the sndNxt boundary
@@ -136,6 +147,8 @@ func vhInvS(s *sender) bool {
 	ok = vand(ok, wnOK)
 	ok = vand(ok, nxtIsBoundary)
 	ok = vand(ok, pos == s.sndNxtList)
+	// the congestion-window gate counts `outstanding`: it is the number of sent, unacknowledged data segments
+	ok = vand(ok, s.outstanding == before)
 	return ok
 }
 
